@@ -870,6 +870,8 @@ class Parser(object):
                 node = nodes.FilterBlock(lineno=token.lineno)
                 node.filter = nodes.Filter(None, 'lineprefix', [nodes.Const(prefix)], [], None, None, lineno=token.lineno)
                 node.body = rv
+                for include in node.find_all(nodes.Include):
+                    include.autoindent = True
             else:
                 node = nodes.Filter(rv, 'lineprefix', [nodes.Const(prefix)], [], None, None, lineno=token.lineno)
             return node
